@@ -188,6 +188,28 @@ pub fn diff(a: &Snap, b: &Snap, body_only: bool) -> Option<String> {
 	None
 }
 
+impl Snap {
+	/// Per-component digests of the best-chain state (no header-chain views, no tail):
+	/// lets another process name the first differing component.
+	pub fn body_digest(&self) -> Vec<(String, u64)> {
+		use crate::prng::fnv64;
+		let d = |x: String| fnv64(x.as_bytes());
+		vec![
+			("head".to_string(), d(format!("{:?}", self.head))),
+			("output_pmmr_root".to_string(), d(format!("{:?}", self.output_pmmr_root))),
+			("bitmap_root".to_string(), d(format!("{:?}", self.bitmap_root))),
+			("rproof_root".to_string(), d(format!("{:?}", self.rproof_root))),
+			("kernel_root".to_string(), d(format!("{:?}", self.kernel_root))),
+			("sizes".to_string(), d(format!("{:?}", self.sizes))),
+			("unspent".to_string(), d(format!("{:?}", self.unspent))),
+			("unspent_enum".to_string(), d(format!("{:?}", self.unspent_enum))),
+			("head_sums".to_string(), d(format!("{:?}", self.head_sums))),
+			("spent_index".to_string(), d(format!("{:?}", self.spent_index))),
+			("sums_by_height".to_string(), d(format!("{:?}", self.sums_by_height))),
+		]
+	}
+}
+
 fn short(s: &str) -> String {
 	if s.len() > 300 {
 		format!("{}…", &s[..300])
